@@ -47,7 +47,7 @@ def toks_str(ts):
 
 
 class RealEngine:
-    def __init__(self, kind: str, accum_allowed: bool, gdp: bool, sigma: float, clip: float, n_tokens: int, noise_mode="count", acct="auto", via_engine=False, clipping="flat"):
+    def __init__(self, kind: str, accum_allowed: bool, gdp: bool, sigma: float, clip: float, n_tokens: int, noise_mode="count", acct="auto", via_engine=False, clipping="flat", prewrapped=False):
         from opacus.accountants import GaussianAccountant, RDPAccountant, PRVAccountant
         from opacus.optimizers import DPOptimizer
         from opacus.optimizers.optimizer_fast_gradient_clipping import DPOptimizerFastGradientClipping
@@ -68,6 +68,10 @@ class RealEngine:
             self.pe = PrivacyEngine(accountant=acct)
             ds = torch.utils.data.TensorDataset(torch.zeros(1000, self.d), torch.zeros(1000))
             dl = torch.utils.data.DataLoader(ds, batch_size=1)
+            if prewrapped and kind == "std":
+                # a GradSampleModule built by the user (a supported input of make_private, e.g. to pass strict=False)
+                from opacus import GradSampleModule
+                base = GradSampleModule(base, loss_reduction="sum")
             kw = dict(module=base, optimizer=self.inner, data_loader=dl, noise_multiplier=sigma,
                       max_grad_norm=([clip] if clipping == "per_layer" else clip), clipping=clipping,
                       loss_reduction="sum", poisson_sampling=not accum_allowed)
